@@ -84,27 +84,50 @@ StmtKw == {"print", "if", "while", "for", "next", "exit", "return", "break", "co
 StmtStartPrev == {"{", "}", ";", ")", "else"}
 KwAtStart(ts) == \A i \in 1..Len(ts) : ts[i] \in StmtKw => (i = 1 \/ ts[i-1] \in StmtStartPrev)
 
+\* two operands (literals, names, $) never stand next to each other: something - an operator, a comma, a
+\* bracket, a keyword, a separator - is between them
+Keywords == StmtKw \cup {"BEGIN", "END", "function", "match", "in", "else", "is", "true", "false", "null"}
+Puncts == Openers \cup Closers \cup BinOnly \cup {"+", "-", "/", "!", ".", ",", ";", ":", "++", "--", "@", "=>"}
+IsOperand(t) == t \notin Keywords /\ t \notin Puncts
+\* ... inside [ ] and inside ( ) other than a parameter list (the grammar is lax about the commas of
+\* parameters, object members and match cases; at rule level two operands are two rules)
+RECURSIVE OpenerOf(_, _, _, _)
+\* index of the innermost bracket open at position i (0: none)
+OpenerOf(ts, i, j, st) ==
+  IF j >= i THEN (IF st = <<>> THEN 0 ELSE Head(st))
+  ELSE IF ts[j] \in Openers THEN OpenerOf(ts, i, j + 1, <<j>> \o st)
+  ELSE IF ts[j] \in Closers /\ st # <<>> THEN OpenerOf(ts, i, j + 1, Tail(st))
+  ELSE OpenerOf(ts, i, j + 1, st)
+InList(ts, i) == LET o == OpenerOf(ts, i, 1, <<>>) IN
+  o > 0 /\ (ts[o] = "[" \/ (ts[o] = "(" /\ ~(o > 2 /\ ts[o - 2] = "function")))
+NoOperandPair(ts) == \A i \in 1..(Len(ts) - 1) : ~(IsOperand(ts[i]) /\ IsOperand(ts[i+1]) /\ InList(ts, i + 1))
+
 WellFormed(ts) == /\ NoIllegal(ts) /\ Balanced(ts) /\ NoBinBin(ts) /\ NoLiteralAssign(ts)
-                  /\ ReturnInFn(ts) /\ BreakInLoop(ts) /\ KwAtStart(ts)
+                  /\ ReturnInFn(ts) /\ BreakInLoop(ts) /\ KwAtStart(ts) /\ NoOperandPair(ts)
 
 Catalogue == << <<"@">>, <<")">>, <<"]">>, <<"}">>, <<"(">>, <<"==", "*">>, <<"1", "=", "2">>, <<"return">>, <<"break">>, <<"continue">>,
                 <<"print", "1">>, <<"next">>, <<"exit">>, <<"if", "(", "1", ")", "{", "}">>, <<"while", "(", "0", ")", "{", "}">>, <<"return", "1">> >>
 
 VARIABLES h, pos, sp, done
 vars == <<h, pos, sp, done>>
-Init == h \in 1..Len(Hosts) /\ sp \in 0..Len(Catalogue) /\ pos = 0 /\ done = FALSE
-\* sp = 0: delete a closing bracket at pos; sp > 0: insert Catalogue[sp] after token pos
+Init == h \in 1..Len(Hosts) /\ sp \in (0 - 1)..Len(Catalogue) /\ pos = 0 /\ done = FALSE
+\* sp = 0: delete a closing bracket at pos; sp = -1: delete a comma or an operator between two operands at pos;
+\* sp > 0: insert Catalogue[sp] after token pos
 Next == /\ ~done /\ done' = TRUE /\ UNCHANGED <<h, sp>>
-        /\ pos' \in IF sp = 0 THEN {i \in 1..Len(Hosts[h]) : Hosts[h][i] \in Closers} ELSE 0..Len(Hosts[h])
+        /\ pos' \in IF sp = 0 THEN {i \in 1..Len(Hosts[h]) : Hosts[h][i] \in Closers}
+                     ELSE IF sp < 0 THEN {i \in 2..(Len(Hosts[h]) - 1) : Hosts[h][i] \in {",", "+", "*", "<", ">", "=", "~"}}
+                     ELSE 0..Len(Hosts[h])
 
 Spliced == LET ts == Hosts[h] IN
-  IF sp = 0 THEN SubSeq(ts, 1, pos - 1) \o SubSeq(ts, pos + 1, Len(ts))
+  IF sp <= 0 THEN SubSeq(ts, 1, pos - 1) \o SubSeq(ts, pos + 1, Len(ts))
   ELSE SubSeq(ts, 1, pos) \o Catalogue[sp] \o SubSeq(ts, pos + 1, Len(ts))
 
 \* a `return` spliced into a function body, or a break / continue spliced into a loop body,
 \* is no static error there: not a splice of this family
 \* (likewise a statement keyword spliced in where a statement may start)
-Applicable == ~(sp > 0 /\ Head(Catalogue[sp]) \in StmtKw /\ WellFormed(Spliced))
+\* (and a deleted separator whose neighbours are not both operands)
+Applicable == /\ ~(sp > 0 /\ Head(Catalogue[sp]) \in StmtKw /\ WellFormed(Spliced))
+              /\ ~(sp < 0 /\ WellFormed(Spliced))
 
 HostsWellFormed == \A i \in 1..Len(Hosts) : WellFormed(Hosts[i])
 SplicedIllFormed == (done /\ Applicable) => ~WellFormed(Spliced)
